@@ -42,6 +42,7 @@ def suite(wt):
 def main():
     pid, wt, n = sys.argv[1], sys.argv[2], sys.argv[3]
     tier = sys.argv[sys.argv.index("--tier") + 1] if "--tier" in sys.argv else "quick"
+    check_as = sys.argv[sys.argv.index("--check-as") + 1] if "--check-as" in sys.argv else pid
     src = os.path.join(wt, "SEEDED", n)
     patch = os.path.join(src, "patch.diff")
     meta = {"property": pid, "source": "independent sub-agent given only the property text and a scratch worktree", "n": n,
@@ -66,7 +67,7 @@ def main():
         meta["check"] = {"error": "patch does not apply to /repo HEAD: " + out[-300:]}
     else:
         t0 = time.time()
-        rc, out = sh("./check %s %s" % (pid, tier), cwd=ROOT, env={"VERIF_REPO": copy}, timeout=3000)
+        rc, out = sh("./check %s %s" % (check_as, tier), cwd=ROOT, env={"VERIF_REPO": copy}, timeout=3000)
         viol = [l for l in out.split("\n") if l.startswith("VIOLATION")]
         detail = [l.strip() for l in out.split("\n") if l.strip().startswith("violation detail")]
         replays = []
@@ -78,7 +79,7 @@ def main():
                     replays.append({k: (r[k][:400] if isinstance(r[k], str) else r[k]) for k in r if k in ("what", "case", "theorem_or_correspondence", "impl", "spec", "model")})
                 except Exception:
                     pass
-        meta["check"] = {"cmd": "VERIF_REPO=<copy of /repo + patch> ./check %s %s" % (pid, tier), "exit": rc, "violations": viol, "details": detail[:4],
+        meta["check"] = {"cmd": "VERIF_REPO=<copy of /repo + patch> ./check %s %s" % (check_as, tier), "checked_with": check_as, "exit": rc, "violations": viol, "details": detail[:4],
                          "replays": replays[:3], "wall_s": round(time.time() - t0, 1),
                          "caught": rc == 1 and bool(viol), "with_failing_input": any("no-failing-input-found" not in v for v in viol)}
     tag = __import__("hashlib").sha1(copy.encode()).hexdigest()[:8]
